@@ -12,6 +12,8 @@ pub mod util;
 #[cfg(kani)]
 pub mod c05;
 #[cfg(kani)]
+pub mod types;
+#[cfg(kani)]
 pub mod zz;
 #[cfg(kani)]
 mod replay;
